@@ -120,8 +120,14 @@ def gen_spec(rng):
         have_when = True
     stubs = []
     for s in range(nstub):
+        if have_when and rng.chance(1, 5):
+            # Matches(Pair{a, v}, …): every pair is its own one-element stub
+            pairs = [(rng.below(dom), 100 * (s + 1) + 50 + j) for j in range(1 + rng.below(3))]
+            toks.append('wM:' + ','.join(f'{a}={v}' for a, v in pairs))
+            stubs += [(('e', [a]), [v]) for a, v in pairs]
+            continue
         c = rand_cond(rng, dom)
-        vals = [100 * (s + 1) + i for i in range(min(rand_len(rng), 99))]
+        vals = [100 * (s + 1) + i for i in range(min(rand_len(rng), 49))]
         if not have_when or (c[0] != 'i' and rng.chance(1, 3)):
             if c[0] == 'i':
                 c = ('e', [c[1][0]])
@@ -166,6 +172,46 @@ def spec_expected(line, stubs, dflt):
     return out, cnt, dcnt
 
 
+def spec_of_line(line):
+    """If a c05.seq line lies inside the scope of the property (every stub is configured once, by When/In + Returns or
+    Return+AndReturn…, by Matches, or — the default — by mocker.Returns / mocker.Return+AndReturn…; then only calls), return
+    (stubs, default); else None."""
+    stubs, dflt, cur, calls = [], None, None, False
+    toks = line.split()[2:]
+    for j, tok in enumerate(toks):
+        k, _, a = tok.partition(':')
+        if k == 'C':
+            calls = True
+            continue
+        if calls:
+            return None
+        if k == 'mS' and j == 0 and a:
+            dflt, cur = [int(x) for x in a.split(',')], None
+        elif k == 'mR' and j == 0:
+            dflt, cur = [int(a)], 'd'
+        elif k == 'wA' and (cur == 'd' or (cur is None and dflt is not None and not stubs)):
+            dflt.append(int(a))
+        elif k == 'wA' and isinstance(cur, int) and stubs[cur][1]:
+            stubs[cur][1].append(int(a))
+        elif k in ('mW', 'wW') and (k == 'wW' or j == 0 or True):
+            c = ('y', []) if a == 'y' else (a[0], [int(x) for x in a[1:].split(',')])
+            stubs.append((c, []))
+            cur = len(stubs) - 1
+        elif k == 'wS' and isinstance(cur, int) and not stubs[cur][1] and a:
+            stubs[cur] = (stubs[cur][0], [int(x) for x in a.split(',')])
+        elif k == 'wR' and isinstance(cur, int) and not stubs[cur][1]:
+            stubs[cur][1].append(int(a))
+        elif k == 'wM' and j > 0:
+            for p in a.split(','):
+                x, v = p.split('=')
+                stubs.append((('e', [int(x)]), [int(v)]))
+        else:
+            return None
+    if any(not v for _, v in stubs):
+        return None
+    return stubs, dflt
+
+
 def gen_free(rng):
     """Anything the API allows: configuration and calls interleaved, repeated Return on one condition, AndReturn first, …"""
     kind = rng.choice(KINDS)
@@ -187,6 +233,8 @@ def gen_free(rng):
             toks.append(f'wA:{val()}')
         elif r < 15:
             toks.append(rng.choice(['mS', 'wS']) + ':' + ','.join(str(val()) for _ in range(rng.below(5))))
+        elif r == 15:
+            toks.append('wM:' + ','.join(f'{rng.below(dom)}={val()}' for _ in range(1 + rng.below(3))))
         else:
             c = rand_cond(rng, dom)
             if c[0] != 'i' and rng.chance(1, 2):
@@ -229,9 +277,11 @@ def parse_hist(s):
 
 
 def hist_oracle(n, evs):
-    """The concurrent clause of the property on an observed history (real-time order = stamp order):
-    every value is a position of the sequence; a call invoked after some call returned position v returns >= min(v+1, n-1)
-    (so positions never go backwards, per thread and in real time, and after the last element only the last element)."""
+    """The concurrent clause of the property on an observed history (real-time order = stamp order): every value is a position
+    of the sequence; positions never go backwards (per thread, and between a call that returned and a call invoked afterwards);
+    once the last element has been returned, every call invoked afterwards receives the last element.
+    (That such a later call even moves *on* is a fact about the code, proved for the model and enforced by trace validation,
+    not demanded here.)"""
     hi = -1                 # highest position returned so far
     floor = {}              # per open call: `hi` at invocation
     last = {}               # per thread: last returned
@@ -249,7 +299,7 @@ def hist_oracle(n, evs):
             if not 0 <= v < n:
                 return f'event {k}: thread {t} received {v}, not a position of the {n}-element sequence'
             f = floor[t]
-            if f >= 0 and v < min(f + 1, n - 1):
+            if v < f:
                 what = 'after the last element was returned' if f == n - 1 else 'positions went backwards in real time'
                 return f'event {k}: thread {t} was invoked after position {f} had been returned but received position {v} ({what})'
             if t in last and v < last[t]:
@@ -511,9 +561,17 @@ def explore(tier, rng, exe, bins, scale=1, tag='c05'):
     seq_ops = [l for l in corpus() if not l.startswith('c05.conc')]
     conc_ops = [l for l in corpus() if l.startswith('c05.conc')]
     n_corpus = len(seq_ops) + len(conc_ops)
+    for l in seq_ops:
+        if l.startswith('c05.seq'):
+            sp = spec_of_line(l)
+            if sp:
+                specs[l] = sp
     seq_ops += gen_serve(tier)
     for _ in range(sz['spec']):
         line, stubs, dflt = gen_spec(rng)
+        sp = spec_of_line(line)
+        if sp is None or [(c, list(v)) for c, v in sp[0]] != [((c[0], list(c[1])), list(v)) for c, v in stubs] or sp[1] != dflt:
+            raise C.Infra('generator and scope parser disagree on ' + line)
         specs[line] = (stubs, dflt)
         seq_ops.append(line)
     seq_ops += [gen_free(rng) for _ in range(sz['free'])]
@@ -645,6 +703,7 @@ def write_evidence(out, tier, proof, r, changed, widened):
         dist['nomatch_panics'] += vals.count('P')
         dist['In_clauses'] += sum(1 for x in t[2:] if x.startswith('wW:i'))
         dist['Any_clauses'] += sum(1 for x in t[2:] if x.endswith('W:y'))
+        dist['Matches_calls'] = dist.get('Matches_calls', 0) + sum(1 for x in t[2:] if x.startswith('wM:'))
         if op in specs:
             dist['spec_histories'] += 1
             stubs, dflt = specs[op]
@@ -694,7 +753,7 @@ def write_evidence(out, tier, proof, r, changed, widened):
         'traces_validated_against_impl': (len(seq_ops) - len(r['seq_diffs'])) + c['admitted'] + (rc['admitted'] if rc else 0),
         'rule': 'one evaluation = one line: (a) c05.serve n cur — the real Result() on a matcher put into that state; (b) c05.seq — one whole '
                 'configuration-and-call history through the real public API on a fresh builder (spec lane: default sequence, 0-4 conditions '
-                '(eq/In/Any, overlapping) with sequences of length 1..49 built by Returns or Return+AndReturn, then 4..240 calls; free lane: '
+                '(eq/In/Any, overlapping) with sequences of length 1..49 built by Returns, Return+AndReturn or Matches, then 4..240 calls; free lane: '
                 'configuration and calls interleaved arbitrarily; malformed lane); (c) one stamped concurrent history of one stub '
                 '(G in 2..32 goroutines from a spin barrier, K in 1..64 calls each, n from 1 to 2*G*K, one default sequence or two conditions '
                 'consumed by disjoint caller groups). Non-trivial = the history returned at least one configured value (a/b) or was a '
